@@ -33,9 +33,12 @@ Definition last_inactive (steps : nat) (s : @ast cf cvec) : bool :=
   match steps with 0 => false | S j => subd s j <? amp_tol * hscale s end.
 (* ... and is column `steps` the NORMALISATION of such a remainder (a unit vector in a direction decided by rounding noise)? then it
    is not compared.  When the model set it to the zero vector (repaired normalisation: remainder norm <= tol/2) it IS compared:
-   the implementation must return a zero column there, not garbage or NaN *)
-Definition last_is_noise (steps : nat) (s : @ast cf cvec) : bool :=
-  last_inactive steps s && negb (vmaxabs (nth steps (aQ s) []) =? 0).
+   the implementation must return a zero column there, not garbage or NaN - provided the decision is robust, i.e. the remainder
+   (rounding noise, which differs by O(1) factors between two executions) is at least a factor 1000 below tol/2, or exactly 0 *)
+Definition last_is_noise (tol : float) (steps : nat) (s : @ast cf cvec) : bool :=
+  last_inactive steps s
+  && negb ((vmaxabs (nth steps (aQ s) []) =? 0)
+           && match steps with 0 => true | S j => subd s j * 0x1.f4p+9 <=? tol / 2 end).   (* robustly below tol/2: by a factor 1000 *)
 
 (* loss of orthogonality of the model's own active columns: single-pass modified Gram-Schmidt loses orthogonality in
    proportion to the conditioning of the Krylov sequence; two binary64 executions that differ by rounding-level
@@ -54,10 +57,10 @@ Definition a_illcond (steps : nat) (ss : list (@ast cf cvec)) : bool :=
 
 Definition drop_col {T} (k : nat) (l : list T) : list T := firstn k l ++ skipn (S k) l.
 
-Definition a_close (steps : nat) (s : @ast cf cvec) (q : list cvec * list cvec) : bool :=
+Definition a_close (tol : float) (steps : nat) (s : @ast cf cvec) (q : list cvec * list cvec) : bool :=
   let '(Q, H) := q in
   let scale := fmax 1 (hscale s) in
-  let '(Qm, Qi) := if last_is_noise steps s then (drop_col steps (aQ s), drop_col steps Q) else (aQ s, Q) in
+  let '(Qm, Qi) := if last_is_noise tol steps s then (drop_col steps (aQ s), drop_col steps Q) else (aQ s, Q) in
   (mdiff Qm Qi <=? rtol) && (mdiff (aH s) H <=? rtol * scale) && Nat.eqb (length (aQ s)) (length Q).
 
 (* 0 agree | 1 excused: disagreement with a stopping decision within 1e-6 of flipping | 2 not compared: noise amplified | 4 values differ *)
@@ -67,7 +70,7 @@ Definition acheck (c : acase) : nat :=
   let r := arnoldi_batch o (fmv (a_A c)) (a_rfix c) (a_cfix c) (a_n c) (a_vs c) (a_mi c) (a_tol c, 0) in
   let steps := fst r in
   if a_amplified steps (snd r) || a_illcond steps (snd r) then 2%nat
-  else if Nat.eqb (length (snd r)) (length (a_out c)) && forallb (fun p => a_close steps (fst p) (snd p)) (combine (snd r) (a_out c)) then 0%nat
+  else if Nat.eqb (length (snd r)) (length (a_out c)) && forallb (fun p => a_close (a_tol c) steps (fst p) (snd p)) (combine (snd r) (a_out c)) then 0%nat
   else if a_near_tie (a_rfix c) (a_tol c) cap steps (snd r) || a_clip_tie (a_cfix c) (a_tol c) steps (snd r) then 1%nat
   else 4%nat.
 
@@ -84,7 +87,7 @@ Definition adiff (c : acase) : float :=
   fold_left (fun acc p =>
     let s := fst p in let '(Q, H) := snd p in
     let scale := fmax 1 (hscale s) in
-    let '(Qm, Qi) := if last_is_noise steps s then (drop_col steps (aQ s), drop_col steps Q) else (aQ s, Q) in
+    let '(Qm, Qi) := if last_is_noise (a_tol c) steps s then (drop_col steps (aQ s), drop_col steps Q) else (aQ s, Q) in
     fmax acc (fmax (mdiff Qm Qi) (mdiff (aH s) H / scale))) (combine (snd r) (a_out c)) 0.
 Definition amaxdiff_agreeing (cs : list acase) : float :=
   fold_left (fun acc c => if Nat.eqb (acheck c) 0 then fmax acc (adiff c) else acc) cs 0.
